@@ -38,4 +38,5 @@ C13_NoWedge       == ~last.g.kf => NoWedgeP(last.g, last.op, last.res, last.val,
 C13_EndedOnce     == ~g.kf => EndedOnceP(g, last.open)
 C13_Multi         == ~last.g.kf => MultiP(last.g, last.op, last.res, last.log)
 C13_NoUnackedDurable == NoUnackedDurableP(g, h.committed)
+C13_NotEndedTwice == NotEndedTwiceP(last.log)
 =============================================================================
